@@ -242,6 +242,19 @@ impl World {
 
     /// One random transaction of the default mix. Returns the label used.
     pub fn step(&mut self, shard: &mut Shard, rng: &mut Rng) -> &'static str {
+        match self.gen_tx(shard, rng) {
+            Ok((label, manifest, proofs)) => {
+                self.ledger.exec(shard, label, manifest, proofs);
+                label
+            }
+            Err(label) => label,
+        }
+    }
+
+    /// Generate (without executing) one random user transaction of the default mix; the two
+    /// kinds that are not plain user manifests (resource creation bookkeeping, consensus rounds)
+    /// are executed right away and reported as `Err(label)`.
+    pub fn gen_tx(&mut self, shard: &mut Shard, rng: &mut Rng) -> Result<(&'static str, TransactionManifestV1, Vec<NonFungibleGlobalId>), &'static str> {
         let a = self.actor(rng);
         let b = self.actor(rng);
         let (mb, mut proofs) = self.fee_prefix(rng, &a);
@@ -396,7 +409,7 @@ impl World {
                 let div = *rng.pick(&[0u8, 1, 6, 17, 18]);
                 let track = rng.bool();
                 self.create_fungible(shard, rng, div, track);
-                return "create_fungible";
+                return Err("create_fungible");
             }
             _ => {
                 // consensus: next round, sometimes with a time / round jump
@@ -417,10 +430,9 @@ impl World {
                         }
                     }
                 }
-                return "next_round";
+                return Err("next_round");
             }
         };
-        self.ledger.exec(shard, label, manifest, proofs);
-        label
+        Ok((label, manifest, proofs))
     }
 }
